@@ -519,6 +519,7 @@ def some_payloads(ctx, n, fit=True, **kw):
             continue
         r["table"] = tn
         r["entry"] = e
+        r["want"] = pinned.size_bits(e["key"], ctx.b.vals, r["occs"])
         out.append(r)
     return out
 
@@ -858,6 +859,11 @@ def cases_C06(ctx):
         p = r["payload"]
         idlen = 3 if r["entry"]["num"] == 4076 else 2
         full = len(p)
+        if r.get("want") is not None and 8 * full < r["want"]:
+            # what a payload announces is what the standard says its counters mean: a definition that lays
+            # these counts out in fewer bits than the pinned standard size accepts a payload that is too short
+            cs.append(case("msg 1 " + hx(p), "%s:std-short" % r["ident"],
+                           ("rejected", {"k": full, "full": (r["want"] + 7) // 8})))
         ks = list(range(idlen, full))
         if len(ks) > ctx.n(6, 40):
             ks = sorted(set([idlen, full - 1, full - 2] + rng.sample(ks, ctx.n(4, 36))))
